@@ -9,47 +9,47 @@ CHECKS = {
  'C12': dict(
   text='Exhaustive enumeration of every phase sequence of length <= 6 (quick) / <= 8 (thorough) over a 5-value alphabet (every placement of wraps, first and last sample included) plus Hypothesis-generated long and short phases, compared against wrap positions recomputed independently. Exploration: a pass is exhaustive on the enumerated sub-domain and sampled elsewhere.',
   note='Trusts numpy; wrap definition taken from the docstring (|diff| > phase_step).',
-  technique='exhaustive enumeration + property-based testing against a reference partition model'),
+  technique='exhaustive enumeration + property-based testing against a reference partition model; coverage-guided fuzzing (atheris) of the same strategies and oracles for the cheap clauses'),
  'C13': dict(
   text='Exhaustive enumeration of all phase sequences of length <= 6/8 over the 5-value alphabet x four phase_edge values, plus Hypothesis-generated phases with random and block boolean masks, single segments fed to is_good, and cycle containers (cache on and off); each wrap-delimited segment must be labelled iff it meets the documented criteria (three-valued oracle: exact boundary values are do-not-care).',
   note='Boundary equalities (p[0] in {0, edge}, p[-1] in {2pi-edge, 2pi}) are not decided because docstring (strict) and code (inclusive) differ; boolean vector masks only.',
-  technique='exhaustive enumeration + property-based testing against a three-valued reference predicate'),
+  technique='exhaustive enumeration + property-based testing against a three-valued reference predicate; coverage-guided fuzzing (atheris) of the same strategies and oracles for the cheap clauses'),
  'C10': dict(
   text='Exhaustive small grid of edge-hitting / out-of-range frequency arrays plus Hypothesis-generated arrays with linear and log bin sets, compared with a per-sample brute-force histogram for the dense, sparse and 1-D spectra, their marginals and the in-range total.',
   note='Half-open bins [e_b, e_b+1) as stated by the property; finite inputs, strictly increasing edges.',
-  technique='exhaustive enumeration + property-based differential testing against a brute-force histogram'),
+  technique='exhaustive enumeration + property-based differential testing against a brute-force histogram; coverage-guided fuzzing (atheris) of the same strategies and oracles for the cheap clauses'),
  'C11': dict(
   text='Exhaustive small grid over carrier x AM frequency classes (below / on edge / mid-bin / last edge / above) plus Hypothesis-generated [T x M] / [T x M x K] arrays with independent bin sets, compared with a triple-loop brute-force histogram for all three squash_time settings.',
   note='Half-open bins on both axes; finite inputs.',
-  technique='exhaustive enumeration + property-based differential testing against a triple-loop histogram'),
+  technique='exhaustive enumeration + property-based differential testing against a triple-loop histogram; coverage-guided fuzzing (atheris) of the same strategies and oracles for the cheap clauses'),
  'C14': dict(
   text='Hypothesis-generated gapped label vectors (time-ordered, permuted and re-appearing labels; float/int/bool observations) x reducing functions (exact comparison with per-label computation), monotone multi-cycle phases x functions of phase (exact for linear quantities, bounded interpolation error otherwise, per-cycle affine variants so that mixing cycles is visible) and phase binning against a brute-force per-bin mean for every bin.',
   note='Interpolation tolerances are 4x classical bounds calibrated with >=3x head-room; mode=cycle only.',
-  technique='property-based testing against direct per-label recomputation and closed-form expectations'),
+  technique='property-based testing against direct per-label recomputation and closed-form expectations; coverage-guided fuzzing (atheris) of the same strategies and oracles for the cheap clauses'),
  'C16': dict(
   text='Exhaustive enumeration of recording layouts (cycle lengths 1-3, optional gaps) x every selection vector, up to 4/5 cycles fully and every selection vector up to length 9/12 on fixed layouts, plus random instances up to 200 cycles; all 12 map_* and 6 project_* functions compared with set-theoretic definitions, and the library-built subset / chain vectors compared with the model for every selection.',
   note='Label vectors are built by the reference model as 1-D integer arrays.',
-  technique='exhaustive enumeration + property-based testing against set-theoretic reference definitions'),
+  technique='exhaustive enumeration + property-based testing against set-theoretic reference definitions; coverage-guided fuzzing (atheris) of the same strategies and oracles for the cheap clauses'),
  'C01': dict(
   text='Hypothesis-generated signals of every listed family (short noisy signals over-weighted so that the extrema-vanished exit path is reached) x stop rule x step x interpolator x pad width; checks additive completeness (1e-9 relative) and that a self-terminated sift ends in a non-oscillatory residual, with the exit path of every extraction measured by an independent reference extraction.',
   note='Convergence errors are an accepted outcome; results cut by sift_thresh are exempt as the property states.',
-  technique='property-based testing with an invariant oracle (sum and residual-extrema predicates)'),
+  technique='property-based testing with an invariant oracle (sum and residual-extrema predicates); coverage-guided fuzzing (atheris) of the same strategies and oracles for the cheap clauses'),
  'C04': dict(
   text='Differential testing of get_next_imf against an independent re-implementation of the stated iteration (bit-exact on the current tree) over stop rules, thresholds, step sizes, iteration limits 1..1000, interpolators and pad widths, with a dedicated generator for the extrema-vanished path and the iteration-limit boundary; signals stored as float64/float32/int64/int16; every extraction is repeated through the same caller-owned option objects (unchanged options, identical result).',
   note='scipy interpolators are shared trusted base; mismatches on ill-conditioned stop decisions (within 1e-9 of threshold) are counted as excluded, not reported.',
-  technique='property-based differential testing against a reference model'),
+  technique='property-based differential testing against a reference model; coverage-guided fuzzing (atheris) of the same strategies and oracles for the cheap clauses'),
  'C05': dict(
   text='Exhaustive enumeration of every sequence of length 3..7 (quick) / 3..9 (thorough) over a 3-level alphabet through 36 extrema calls and 90 envelope calls each, plus Hypothesis-generated signals with custom np.pad options; extrema compared with strict local maxima/minima and np.pad, envelopes with interpolants rebuilt at the integer sample times.',
   note='scipy splrep/splev/PchipInterpolator trusted; pad_width=0 envelopes may raise cleanly.',
-  technique='exhaustive enumeration + property-based testing against reference extrema/envelope models'),
+  technique='exhaustive enumeration + property-based testing against reference extrema/envelope models; coverage-guided fuzzing (atheris) of the same strategies and oracles for the cheap clauses'),
  'C09': dict(
   text='Hypothesis-generated AM-FM inputs and pure sinusoids over methods x sample rates x amplitudes x phases: shape/range/derivative consistency, accuracy within calibrated tolerances, closed-form phase<->frequency round trip, scale invariance (dyadic and real factors) and independence of every IMF of a 3-D second-level stack from its neighbours.',
   note='Accuracy tolerances are empirical calibrations (>=3x head-room), not derived bounds.',
-  technique='property-based testing with metamorphic relations, closed forms and calibrated accuracy bounds'),
+  technique='property-based testing with metamorphic relations, closed forms and calibrated accuracy bounds; coverage-guided fuzzing (atheris) of the same strategies and oracles for the cheap clauses'),
  'C17': dict(
   text='Hypothesis-generated feature arrays (continuous, tie-rich integer, clustered) x K x distance bounds checked against a validity predicate: equal lengths, in-range, injective on both sides, within bound and within the K-th nearest-neighbour distance; a second clause matches twice through the same array objects with the contents replaced in place (no state may survive a call).',
   note='Validity predicate only - which of several admissible pairings is returned is not constrained.',
-  technique='property-based testing with a validity-predicate oracle'),
+  technique='property-based testing with a validity-predicate oracle; coverage-guided fuzzing (atheris) of the same strategies and oracles for the cheap clauses'),
  'C02': dict(
   text='Metamorphic testing over generated signals and option sets: dyadic factors +-2^k asserted bit for bit for get_next_imf, sift and (2^k>0) mask_sift on every case; real factors and time reversal asserted to 1e-6 on the prefix of IMFs whose extraction the reference model shows well conditioned (measured guard band); ratio-mode masked sifts with explicit and zero-crossing mask frequencies.',
   note='sift_thresh (an absolute threshold) is scaled with |c|; ill-conditioned extractions are excluded from the rounding-tolerance relations and counted.',
@@ -73,7 +73,7 @@ CHECKS = {
  'C19': dict(
   text='A catalogue of the public numeric entry points driven with generated signals under four option sets (step sizes != 1, all stop rules, data-driven mask frequencies): equivalent layouts must give identical results, multi-column / row-vector / 3-D input to the single-signal sift routines and mismatched lengths to multi-array routines must raise, inputs (also read-only ones) must be byte-identical afterwards, caller-owned option dictionaries deepcopy-equal, and a repeated call identical.',
   note='amplitude_normalise and hilberthuang_1d document 2-D input only; any exception type counts as rejection.',
-  technique='property-based testing with metamorphic (layout) relations and before/after state comparison'),
+  technique='property-based testing with metamorphic (layout) relations and before/after state comparison; coverage-guided fuzzing (atheris) of the same strategies and oracles for the cheap clauses'),
  'C20': dict(
   text='Exhaustive enumeration of every call history of length <= 3 (quick) / <= 4 (thorough) over a 19-action alphabet from both the never-set-up and the set-up state, random histories to length 12 with log files and the other sift variants, and random histories replayed in fresh interpreters; a model of the console level is compared with get_level() after every step, outputs with a logging-free baseline, and console traffic during each call with the effective level.',
   note='The never-set-up state is re-created in-process (validated by the fresh-interpreter clause); console output goes to a counting stream.',
@@ -81,11 +81,11 @@ CHECKS = {
  'C15': dict(
   text='Model-based testing of container call histories: Hypothesis draws a phase series and up to 12 operations (metric computation in cycle / augmented mode, metric addition, timings, subset selection with 1-3 condition strings over all six comparators and integer / negative / decimal / exponent literals, re-picking the same conditions, chain timings and chain metrics, table export) applied in lock-step to a cache-on and a cache-off container; a reference model on the independently recomputed cycle partition is compared after every step.',
   note='Documented rejections (chain metrics before a subset, empty selections, wrong-length metrics) are accepted. One open known finding (two definitions of the augmented segment on non-monotone cycles) is excluded by construction and counted; the search continues behind it.',
-  technique='model-based (stateful) property testing of operation histories with a lock-step twin and a reference model'),
+  technique='model-based (stateful) property testing of operation histories with a lock-step twin and a reference model; coverage-guided fuzzing (atheris) of the same strategies and oracles for the cheap clauses'),
  'C18': dict(
   text='Hypothesis-generated edit histories on twin configurations (slash paths vs nested indexing) with values of every supported kind at depth 1-3, default-config faithfulness for all four variants, and behavioural YAML round trips through both the file and the text/stream route (same sift_type, same options modulo tuple/array->list, identical sift output, saved object untouched).',
   note='PyYAML trusted; ensemble variants compared with a re-seeded RNG.',
-  technique='model-based testing of edit histories (twin comparison) + round-trip property testing'),
+  technique='model-based testing of edit histories (twin comparison) + round-trip property testing; coverage-guided fuzzing (atheris) of the same strategies and oracles for the cheap clauses'),
 }
 
 NOT_APPLICABLE = [{'property_id': p, 'reason': 'check not built yet in this round (planned with the same technique, see DESIGN.md section 2)'}
